@@ -66,7 +66,8 @@ ASSUMPTIONS = [
     "frame, so 'on the minimum' is decided by the same numbers the decorator sees; moved radius to 1e-12 relative, ray "
     "to 1e-12; r == 0 exactly excluded (the code maps it to (min, min))",
     "projected lines: collinearity / spacing to 1e-10 of the largest coordinate; the direction convention (angle + 90 "
-    "degrees, clockwise) and the number of projected points are not part of the statement and are not judged",
+    "degrees, clockwise) and the number of projected points are not part of the statement and are not judged; what is judged is that one profile's "
+    "projected line has the same direction for Grid1D and Grid2D input (project.direction_same_for_1d_and_2d)",
     "to_vector_yx on Grid1D is unimplemented in the source and outside the statement",
 ]
 QUICK_JOBS = 8
@@ -74,7 +75,7 @@ _DECIDING = ["grid2d.array.container", "grid2d.array.pairing", "grid2d.grid.pair
              "grid2d.list.wrapped", "grid2d.received_unchanged", "irregular.array.pairing", "irregular.grid.pairing",
              "irregular.vector.pairing", "irregular.list.wrapped", "irregular.received_unchanged", "grid1d.line",
              "grid1d.array.pairing", "grid1d.list.wrapped", "grid1d.grid.pairing", "project.grid2d.line", "project.grid2d.pairing", "project.grid1d.line",
-             "project.grid1d.pairing", "project.irregular.pairing", "radial.outside_unchanged", "radial.inside_radius",
+             "project.grid1d.pairing", "project.direction_same_for_1d_and_2d", "project.irregular.pairing", "radial.outside_unchanged", "radial.inside_radius",
              "radial.inside_ray", "radial.result_pairing", "transform.received", "transform.pairing",
              "transform.not_twice"]
 MIN_MONITORS = {"*": {k: 20 for k in _DECIDING}}
@@ -202,7 +203,15 @@ def make_profiles(aa):
         P.__name__ = P.__qualname__ = name
         return P
 
-    return {n: build(n) for n in RADIAL_MIN}
+    # The three classes share ONE set of decorated methods through inheritance (as real profile hierarchies do): per-class
+    # configuration such as the radial minimum must be resolved per call from the class of the object, not remembered per
+    # decorated function.
+    names = list(RADIAL_MIN)
+    base = build(names[0])
+    out = {names[0]: base}
+    for n in names[1:]:
+        out[n] = type(n, (base,), {})
+    return out
 
 
 def _np(x):
@@ -609,6 +618,18 @@ def check_grid1d(ctx, i):
         line = log[0][1] if len(log) == 1 else None
         ctx.check(line is not None and on_one_line(line, x, tol), "project.grid1d.line", calls=[(t, a.shape) for (t, a) in log], received=line, **W)
         if line is not None and line.shape == (n, 2):
+            # the radially projected line of one profile has ONE direction, whatever grid type it is evaluated on: compare the
+            # unit vector of the 1-D line (x_k * u) with that of the line the same profile receives for a small Grid2D
+            k = int(np.argmax(np.abs(x)))
+            if abs(x[k]) > 0:
+                u1 = line[k] / x[k]
+                g2 = aa.Grid2D.uniform(shape_native=(5, 7), pixel_scales=(ps, ps))
+                ok2, _, log2 = call_logged(ctx, p, "project.exception", p.f_project, g2)
+                if ok2 and len(log2) == 1 and len(log2[0][1]) >= 2:
+                    l2 = log2[0][1]
+                    d2 = l2[-1] - l2[0]
+                    u2 = d2 / np.hypot(*d2)
+                    ctx.check(float(np.abs(u1 / np.hypot(*u1) - u2).max()) <= 1e-9, "project.direction_same_for_1d_and_2d", direction_1d=u1, direction_2d=u2, **W)
             exp = tags.t(line)
             ctx.check(isinstance(res, aa.Array1D) and _np(res.slim).shape == exp.shape and np.array_equal(_np(res.slim), exp),
                       "project.grid1d.pairing", result_type=type(res).__name__, expected=exp, got=lambda: _np(res), **W)
